@@ -120,14 +120,12 @@ def repo_recs(root: Path) -> list[dict]:
 
 
 def multiset_diff(a: list[dict], b: list[dict], keys) -> tuple[list, list]:
-    ca = sorted(db.canon(r, keys) for r in a)
-    cb = sorted(db.canon(r, keys) for r in b)
-    only_a = [x for x in ca if x not in cb]
-    only_b = [x for x in cb if x not in ca]
-    if not only_a and not only_b and len(ca) != len(cb):
-        only_a = [("multiplicity", len(ca))]
-        only_b = [("multiplicity", len(cb))]
-    return only_a, only_b
+    """Multiset difference of canonical records (duplicates count)."""
+    from collections import Counter
+
+    ca = Counter(db.canon(r, keys) for r in a)
+    cb = Counter(db.canon(r, keys) for r in b)
+    return sorted((ca - cb).elements()), sorted((cb - ca).elements())
 
 
 def describe_diff(only_a, only_b, la: str, lb: str) -> str:
@@ -247,26 +245,28 @@ def run_case(acc: Acc, seed: int, idx: int) -> None:
         if oa or ob:
             acc.violation("repo.get_notes_by_query(None) vs SQL rows: " + describe_diff(oa, ob, "repo", "index"), case, cls="repo notes != indexed rows (" + _fields(oa, ob) + ")")
         # fixpoints
-        for cmd in (("db", "reindex"), ("db", "create"), ("db", "reindex")):
+        some = sorted(z.pages)
+        explicit = ("db", "reindex") + tuple(str(root / r_) for r_ in some[: max(1, len(some) // 2)])
+        for cmd in (("db", "reindex"), explicit, ("db", "create"), explicit, ("db", "reindex")):
             TRACER.start(root)
             r2 = db.cli(root, *cmd)
             ev2 = TRACER.stop()
             if r2.rc != 0:
-                acc.violation(f"`{' '.join(cmd)}` after create failed rc={r2.rc} {r2.err[-200:]}", case, cls=f"second {' '.join(cmd)} fails")
+                acc.violation(f"`{' '.join(cmd)}` after create failed rc={r2.rc} {r2.err[-200:]}", case, cls=f"second {' '.join(cmd[:2])}{' <paths>' if len(cmd) > 2 else ''} fails")
                 break
             again = read_files(root)
             if again != after:
                 ch = [k for k in after if again.get(k) != after[k]]
-                acc.violation(f"`{' '.join(cmd)}` after create changed files {ch}", case, cls=f"second {' '.join(cmd)} changes files")
+                acc.violation(f"`{' '.join(cmd)}` after create changed files {ch}", case, cls=f"second {' '.join(cmd[:2])}{' <paths>' if len(cmd) > 2 else ''} changes files")
                 break
             d2 = db.dump_index(root)
             oa, ob = multiset_diff(d2.notes, dump.notes, db.NOTE_KEYS)
             if oa or ob or d2.problems:
-                acc.violation(f"`{' '.join(cmd)}` after create changed the index: " + describe_diff(oa, ob, "after", "before") + str(d2.problems[:2]), case, cls=f"second {' '.join(cmd)} changes the index")
+                acc.violation(f"`{' '.join(cmd)}` after create changed the index: " + describe_diff(oa, ob, "after", "before") + str(d2.problems[:2]), case, cls=f"second {' '.join(cmd[:2])}{' <paths>' if len(cmd) > 2 else ''} changes the index")
                 break
             w2 = {e[1] for e in ev2 if e[0] == "write" and not e[1].startswith(".zorg")}
             if w2:
-                acc.violation(f"`{' '.join(cmd)}` after create wrote {sorted(w2)}", case, cls=f"second {' '.join(cmd)} writes pages")
+                acc.violation(f"`{' '.join(cmd)}` after create wrote {sorted(w2)}", case, cls=f"second {' '.join(cmd[:2])}{' <paths>' if len(cmd) > 2 else ''} writes pages")
                 break
     feats = []
     for rel, p in z.pages.items():
